@@ -1,8 +1,8 @@
 SPECIFICATION Spec
 CONSTANTS
-  TorrentSeq <- T2
+  TorrentSeq <- T1
   NClients = 1
-  Choices <- ChoicesAll
+  Choices <- ChoicesAll1
   BgSeq <- BgAll
   Fixed = {"StartAll", "StopAll", "resolveAndAddPeer", "moveTorrent", "reserveID", "cleanLive", "compactLocks", "dhtDropOnStop"}
   Budget = 1
